@@ -1,7 +1,7 @@
 (* C09 — grouping and aggregation conserve rows: each row in exactly one group.
    groupby (getkey idx) (sort_data ... rows) is what rowgroupby delivers to every grouping operator of
    model/Reductions.v (aggregate in all forms, rowreduce, rowgroupmap, fold, groupselect*, mergeduplicates). *)
-From Verif Require Import PyVal Rows ComparableGen Sort Joins JoinRel Reductions ReduceFacts.
+From Verif Require Import PyVal Rows ComparableGen Sort Joins JoinRel Reductions ReduceFacts ExtremeFacts.
 From Coq Require Import Permutation.
 
 (* one group per distinct key, ascending, each = exactly the rows with that key in input order; any buffersize *)
@@ -32,8 +32,29 @@ Theorem C09_reducer_applied_per_group : forall (A : Type) (f : A -> res row) (f'
   (forall x, In x l -> f x = Ok (f' x)) -> gen_map f l = (map f' l, None).
 Proof. intros A f f' l. apply gen_map_total. Qed.
 
-(* Not mechanised: groupselectmin/max = first extreme of the group (needs filter/pysort commutation); judged on
-   every run by the extracted oracle GroupSpec.groupselect_spec_holds, as are aggregate outputs by aggregate_spec_holds. *)
+(* groupselectmin (rev = false) / groupselectmax (rev = true) = groupselectfirst(sort(table, value, reverse=rev), key):
+   for every key the delivered row is the FIRST extreme of the rows with that key, in table order - it is one of them, no
+   member is better in the value order, and every member that precedes it in the table is strictly worse.  Any buffersize. *)
+Theorem C09_groupselect_first_extreme : forall (rev : bool) kidx vidx (bs : option nat) rows,
+  (forall b, bs = Some b -> (1 <= b)%nat) ->
+  let leb := row_leb rev vidx in
+  let gs := groupby (getkey kidx) (sort_data (row_leb false kidx) bs (sort_data leb None rows)) in
+  forall g, In g gs ->
+    let members := filter (fun r => ceq (getkey kidx r) (fst g)) rows in
+    let sel := hd [] (snd g) in
+    In sel members
+    /\ Forall (fun z => leb sel z = true) members
+    /\ exists pre post, members = pre ++ sel :: post /\ Forall (fun z => leb z sel = false) pre.
+Proof. exact groupselect_selected_row. Qed.
+
+(* a stable sort commutes with every filter (total, transitive order): the fact behind the theorem above *)
+Theorem C09_stable_sort_commutes_with_filter : forall (A : Type) (leb : A -> A -> bool),
+  (forall x y, leb x y = true \/ leb y x = true) ->
+  (forall x y z, leb x y = true -> leb y z = true -> leb x z = true) ->
+  forall (p : A -> bool) l, filter p (pysort leb l) = pysort leb (filter p l).
+Proof. exact @pysort_filter. Qed.
+
+(* aggregate outputs are judged on every run by the extracted oracle aggregate_spec_holds. *)
 
 Open Scope Z_scope.
 Example C09_ex :
@@ -47,3 +68,5 @@ Print Assumptions C09_group_counts_sum_nrows.
 Print Assumptions C09_valuecounts_sum.
 Print Assumptions C09_selected_is_member.
 Print Assumptions C09_reducer_applied_per_group.
+Print Assumptions C09_groupselect_first_extreme.
+Print Assumptions C09_stable_sort_commutes_with_filter.
